@@ -64,6 +64,10 @@ CHECKS["C07"] = ("exploration", "reference-ledger monitor on a wallet restored f
   "a wallet known only by its mnemonic (addresses derived independently, index gaps below the gap limit) is restored on a chain containing its history; reorgs and new blocks are injected while the rescan transaction is open, also on 2100-3200-block chains with ≥3 batches; while importing it must be listed as importing and refuse selection/removal; it must finish within a bounded number of worker rounds and then equal the ledger",
   "the original live-watching wallet is represented by the reference ledger (C01); injected reorgs reach the whole scanned range only on short chains", "§5 C07")
 
+CHECKS["C08"] = ("exploration", "raw residue scan of the closed wallet database with an explicit allowed-residue rule + reference-ledger monitor on survivors + build/sign probes + re-import of the removed mnemonic; worker parked between removal rounds for a restart",
+  "after a removal in a multi-wallet shared history (pending transactions, staking/binding records, > 20 000 credits for multi-round removal, restart between rounds) the database must hold no entry naming the removed wallet's id, addresses or script hashes except pending transactions a survivor needs; survivors must equal the ledger and still build and sign; the mnemonic must import again and equal the ledger",
+  "allowed residue is defined before looking at the code's result; refusal cases (wrong passphrase, importing) are covered by C05/C07", "§5 C08")
+
 NOT_APPLICABLE = {}
 
 def main():
